@@ -101,7 +101,18 @@ Garbage == IF "junk" \in Family
                  [t |-> "Commit", h |-> H - 1, v |-> 0, from |-> 0, s |-> -1, b |-> JunkBlock],
                  [t |-> "PrepareRequest", h |-> H, v |-> 0, from |-> (Prim(0) + 1) % N, ts |-> 4001, nonce |-> "109", txs |-> <<>>]}
            ELSE {}
-Menu(s) == Reqs \cup Resps(s) \cup Sigs(s, "Commit") \cup (IF AmevOn \/ HasJunk THEN Sigs(s, "PreCommit") ELSE {})
+\* family "echo": the node is a restarted validator (empty consensus state, same key): what its previous incarnation may have
+\* said at this height comes back to it (a relay's recovery message hands such payloads to OnReceive like anybody else's; there is
+\* no self-filter).  An honest previous incarnation said at most: its proposal, a response / (pre)commit for a proposal, a change view.
+Echo(s) ==
+  IF "echo" \notin Family THEN {}
+  ELSE UNION {   {[t |-> "PrepareRequest", h |-> H, v |-> v, from |-> Me, ts |-> PropHash(v, 1).ts, nonce |-> PropHash(v, 1).nonce, txs |-> PropHash(v, 1).txs] : w \in {v} \cap {u \in Views : Prim(u) = Me}}
+            \cup {[t |-> "PrepareResponse", h |-> H, v |-> v, from |-> Me, ph |-> ph] : ph \in (IF Prim(v) = Me THEN {} ELSE Known(s, v))}
+            \cup {[t |-> "Commit", h |-> H, v |-> v, from |-> Me, s |-> 500, b |-> BlockOf(ph)] : ph \in Known(s, v) \cup (IF Prim(v) = Me THEN {PropHash(v, 1)} ELSE {})}
+            \cup (IF AmevOn THEN {[t |-> "PreCommit", h |-> H, v |-> v, from |-> Me, s |-> 500, b |-> BlockOf(ph)] : ph \in Known(s, v) \cup (IF Prim(v) = Me THEN {PropHash(v, 1)} ELSE {})} ELSE {})
+            \cup {[t |-> "ChangeView", h |-> H, v |-> v, from |-> Me, ts |-> Now, nv |-> v + 1, reason |-> 0]}
+          : v \in Views }
+Menu(s) == Echo(s) \cup Reqs \cup Resps(s) \cup Sigs(s, "Commit") \cup (IF AmevOn \/ HasJunk THEN Sigs(s, "PreCommit") ELSE {})
            \cup Cvs \cup RReqs \cup RMsgs(s) \cup Garbage \cup NextMenu(s)
 
 \* what the application answers
